@@ -67,6 +67,11 @@ def min_cases(prop):
     return json.load(open(p)).get("min_coq_cases", 1) if os.path.exists(p) else 1
 
 
+def axioms_allowed(prop):
+    p = pin_path(prop)
+    return json.load(open(p)).get("axioms_allowed", []) if os.path.exists(p) else []
+
+
 if __name__ == "__main__":
     props = [a for a in sys.argv[1:] if a.startswith("C")] or sorted(
         f[:-2] for f in os.listdir(os.path.join(ROOT, "coq", "props")) if re.match(r"C\d\d\.v$", f))
@@ -77,6 +82,7 @@ if __name__ == "__main__":
             old = json.load(open(pin_path(prop))) if os.path.exists(pin_path(prop)) else {}
             new = dict(old, statements=statements(prop))
             new.setdefault("min_coq_cases", 1)
+            new.setdefault("axioms_allowed", [])
             json.dump(new, open(pin_path(prop), "w"), indent=1, sort_keys=True)
             print("%s: %d statements pinned" % (prop, len(new["statements"])))
         else:
